@@ -2136,7 +2136,9 @@ class HDKey(Key):
                 if index < 0:
                     raise BKeyError("Could not parse path. Index must be a positive integer.")
                 if first_public or not key.is_private:
-                    key = key.child_public(index=index, network=network)  # TODO hardened=hardened key?
+                    if hardened:
+                        raise BKeyError("Cannot derive hardened key %s' from a public key" % index)
+                    key = key.child_public(index=index, network=network)
                     first_public = False
                 else:
                     key = key.child_private(index=index, hardened=hardened, network=network)
